@@ -629,10 +629,9 @@ static void do_proof(World &W, const ProofSpec &ps_in, const Fault &f, bool chun
 	if (mk == 6)
 	{
 		// negative representatives: the verifiers state |v| < q (mpz_cmpabs), so value-q is accepted at many
-		// positions by design; it is asserted only where every transmitted value enters a Fiat-Shamir hash
-		// literally (non-interactive shuffle argument), elsewhere it is recorded
+		// positions by design (also inside the non-interactive arguments); recorded, never asserted
 		W.res.cnt[std::string("probe.minusq_") + (o.vret == 1 ? "accepted_" : "refused_") + kind_name(ps.kind) + "_v" + std::to_string(ps.variant)]++;
-		if (!(ps.kind == K_GROTH && ps.variant == 1)) return;
+		return;
 	}
 	if (o.vret == 1)
 	{
